@@ -359,7 +359,7 @@ def handle (name : String) (args : List String) : String :=
     match parseSegs (args.take 9), ((args.drop 9).take 2).mapM parseRat, ((args.drop 11).drop 1).mapM parseRat with
     | some ([s], []), some [qx, qy], some samples =>
       let dist (t : ℚ) : ℚ := let p := s.eval t; ratSqrt ((p.x - qx) * (p.x - qx) + (p.y - qy) * (p.y - qy))
-      "ok " ++ showRat (Lookup.cubicTOfPoint dist samples)
+      "ok " ++ showRat (Lookup.cubicTOfPointFull dist samples)
     | _, _, _ => "bad-args"
   | "inter.run" =>
     -- inter.run <self> <other> <aligned> | cardano roots...   (aligned = a line when both operands are lines)
